@@ -560,7 +560,9 @@ pub fn map_op<K: SimK, V: SimV, const C: usize>(m: &mut Map<K, V, C>, cx: &mut C
                     win!(aw, drop(c2));
                     let mut dst: Map<K, V, C> = Map::new();
                     for i in 0..(*prefill as usize).min(C) {
-                        let k = cx.mk_k(100 + i as u32);
+                        // the destination's keys overlap the source's, in the opposite slot order
+                        let c = if i < pre.len() && i % 3 != 2 { pre[pre.len() - 1 - i].kclass } else { 100 + i as u32 };
+                        let k = cx.mk_k(c);
                         let v = cx.mk_v();
                         if let Some(old) = win!(aw, dst.insert(k, v)) {
                             cx.ret_v("insert", old);
